@@ -171,6 +171,7 @@ def monitored_connection_class():
         vf_wrap = True
         vf_connect_hook = None     # called at the start of _connect()
         vf_sndbuf = None           # SO_SNDBUF to set on the new socket
+        vf_rcvbuf = None           # SO_RCVBUF likewise
         vf_close_delay = 0         # pause between socket shutdown and stream close
 
         def __setattr__(self, name, value):
@@ -194,6 +195,10 @@ def monitored_connection_class():
             if self.vf_connect_hook is not None:
                 self.vf_connect_hook()
             super(MonitoredConnection, self)._connect()
+            if self.vf_rcvbuf:
+                import socket as _socket
+                self.socket.setsockopt(_socket.SOL_SOCKET, _socket.SO_RCVBUF,
+                                       self.vf_rcvbuf)
             if self.vf_sndbuf:
                 # environment shaping: a small kernel send buffer
                 import socket as _socket
